@@ -784,6 +784,55 @@ fn run(id: u32, toks: &[&str]) -> Option<String> {
     Some(got)
 }
 
+/// api-coverage: the `num_traits::{CheckedAdd, CheckedSub, CheckedMul, CheckedDiv}` TRAIT impls called
+/// trait-qualified (op `tform`, ids K*10^6 + OP*10^4 + 3 with OP = 12..15).  For BigInt the method-call syntax of
+/// `run_binary` resolves to the inherent `BigInt::checked_*`, so the trait impls are only reached here.
+fn run_form_t(f: &Form, a: &[Arg]) -> Option<R> {
+    if a.len() != 2 || f.shape != 0 || f.sty != 0 || f.var != 3 {
+        return None;
+    }
+    match (f.k, &a[0], &a[1]) {
+        (1, Arg::U(x), Arg::U(y)) => match f.op {
+            12 => Some(R::OU(CheckedAdd::checked_add(x, y))),
+            13 => Some(R::OU(CheckedSub::checked_sub(x, y))),
+            14 => Some(R::OU(CheckedMul::checked_mul(x, y))),
+            15 => Some(R::OU(CheckedDiv::checked_div(x, y))),
+            _ => None,
+        },
+        (2, Arg::I(x), Arg::I(y)) => match f.op {
+            12 => Some(R::OI(CheckedAdd::checked_add(x, y))),
+            13 => Some(R::OI(CheckedSub::checked_sub(x, y))),
+            14 => Some(R::OI(CheckedMul::checked_mul(x, y))),
+            15 => Some(R::OI(CheckedDiv::checked_div(x, y))),
+            _ => None,
+        },
+        _ => None,
+    }
+}
+
+fn run_t(id: u32, toks: &[&str]) -> Option<String> {
+    let f = decode(id);
+    let args = parse_args(&f, toks)?;
+    let form: Result<R, String> = match caught(|| run_form_t(&f, &args)) {
+        Ok(None) => return None,
+        Ok(Some(r)) => Ok(r),
+        Err(c) => Err(c),
+    };
+    let canon = match caught(|| run_canon(&f, &args)) {
+        Ok(None) => return None,
+        Ok(Some(r)) => Ok(r),
+        Err(c) => Err(c),
+    };
+    let got = match &form {
+        Ok(r) => r.show(),
+        Err(c) => format!("panic {}", c),
+    };
+    if got != expected(&f, &canon) {
+        return Some(format!("panic internal:form-mismatch:t{}", id));
+    }
+    Some(got)
+}
+
 fn describe(f: &Form) -> String {
     let big = if f.k == 1 { "BigUint" } else { "BigInt" };
     let sym = ["", "+", "-", "*", "/", "%", "&", "|", "^", "<<", ">>", "pow", "checked_add", "checked_sub", "checked_mul", "checked_div", "Sum", "Product"][f.op as usize];
@@ -863,6 +912,10 @@ pub fn handle(op: &str, a: &[&str]) -> Option<String> {
         "form" => {
             let id: u32 = a.first()?.parse().ok()?;
             run(id, &a[1..])
+        }
+        "tform" => {
+            let id: u32 = a.first()?.parse().ok()?;
+            run_t(id, &a[1..])
         }
         "forms" => {
             let fs = forms();
